@@ -263,10 +263,13 @@ def real_output_dirs(standins):
     proj = hrun.Project()
     try:
         res = []
+        texts = {}
         for segs, name, versioned, ts in standins:
             pkg = "/".join(segs)
             kind = "run_experiment" if versioned else "run_command"
-            proj.write(os.path.join(pkg, "COND"), "%s(name=%r, run='true')\n" % (kind, name))
+            texts[pkg] = texts.get(pkg, "") + "%s(name=%r, run='true')\n" % (kind, name)
+        for pkg, text in texts.items():
+            proj.write(os.path.join(pkg, "COND"), text)
         for segs, name, versioned, ts in standins:
             if versioned:
                 proj.add_version("//%s:%s" % ("/".join(segs), name), ts)
@@ -316,6 +319,21 @@ def lemma_injective(kmax):
                 if t1 != t2:
                     out["inconclusive"].append("template for k=%d versioned=%s depends on the component text: %s vs %s" % (k, ver, t1, t2))
                 temps[(k, ver)] = t1
+        # the templates only stand for names that are embedded verbatim: probe long names (directory-name limits)
+        for ln in (1, 64, 200, 201, 240):
+            n1, n2 = "q" * (ln - 1) + "1", "q" * (ln - 1) + "2"
+            out["obligations"] += 1
+            try:
+                d1, d2 = real_output_dirs([((), n1, False, 0), ((), n2, False, 0)])
+            except OSError as ex:
+                out["discharged"] += 1          # the file system refuses such a name: no directory, no collision
+                continue
+            if d1 == d2:
+                out["violations"].append(("identifier:output-dir-collision:long-names", "names of length %d differing in the last character share the output directory %s" % (ln, d1[:60]), n1))
+            elif n1 not in d1 or n2 not in d2:
+                out["inconclusive"].append("a name of length %d is not embedded verbatim in its output directory: the template lemma does not cover it" % ln)
+            else:
+                out["discharged"] += 1
         digits = z3.Concat(z3.Range("1", "9"), z3.Star(z3.Range("0", "9")))
         combos = [(a, b) for a in temps for b in temps if a <= b]
         for (ka, va), (kb, vb) in combos:
@@ -352,7 +370,7 @@ def relative_fn(g):
     import conductor.cli.run as cli_run
     from vlib import graphs, fakeos
     from vlib.hrun import TaskSpec
-    pk = ("", "a", "b", "a/c")
+    pk = ("", "a", "b", "a/c", "SECOND", "SE")
     chosen = [pk[i] for i in range(len(pk)) if g.flag("pkg%d" % i)]
     if not chosen:
         return {"nontrivial": False, "sample": None}
@@ -394,7 +412,7 @@ def relative_fn(g):
 def spaces(tier):
     from vlib.runner import Space
     return [Space("relative-deps-in-several-packages", relative_fn,
-                  "every non-empty subset of packages {root, a, b, a/c}, each with main deps=[':prep'], a group over all mains "
+                  "every non-empty subset of packages {root, a, b, a/c, SECOND, SE}, each with main deps=[':prep'], a group over all mains "
                   "(listing order forward/reversed), one `cond run`", depth=5, goals=["same relative dependency string in two packages"])]
 
 
